@@ -15,9 +15,9 @@ build_variant() { # fanout
     return 0
   fi
   mkdir -p $B/bf$f
-  bin/bfpatch /repo/container/tree/btree.go $f $PWD/$B/bf$f/btree.go 2> $B/patch$f.log; rc=$?
+  bin/bfpatch $VERIF_REPO/container/tree/btree.go $f $PWD/$B/bf$f/btree.go 2> $B/patch$f.log; rc=$?
   [ $rc = 0 ] || return $rc
-  printf '{"Replace":{"/repo/container/tree/btree.go":"%s"}}' "$PWD/$B/bf$f/btree.go" > $B/bf$f/overlay.json
+  printf '{"Replace":{"%s/container/tree/btree.go":"%s"}}' "$VERIF_REPO" "$PWD/$B/bf$f/btree.go" > $B/bf$f/overlay.json
   go build -tags verif -overlay $B/bf$f/overlay.json -o bin/tree_bf$f ./props/tree 2> $B/build$f.log || return 2
 }
 if [ "${1:-}" = "--replay" ]; then
